@@ -74,6 +74,8 @@ class RuleGen:
 
     def perturb(self, s: str) -> str:
         r = self.rng.random()
+        if self.rng.random() < 0.12 and s.lower() != s.upper():
+            return s.upper() if self.rng.random() < 0.6 else s.capitalize() if s.capitalize() != s else s.upper()      # names are case-sensitive: MOV is not mov
         if r < 0.4:
             t = s + self.rng.choice("lqwbx01")
         elif r < 0.7 and len(s) > 1:
